@@ -49,6 +49,14 @@ static void run(const char *op, size_t start, size_t size, size_t a, size_t bb, 
     FAULT_KIND = kind; FAULT_AT = at;
     mir_Clone_for_CircularBuffer_clone_from(&b, &o);
   }
+  else if (!strcmp(op, "clone")) { cb_t c = mir_Clone_for_CircularBuffer_clone(&b); if (UNWINDING) have_buf = 0; else b = c; /* the source is forgotten; report the clone */ }
+  else if (!strcmp(op, "from_iter")) { user_I_t it; memset(&it, 0, sizeof it); it.mode = 0; it.remaining = a; cb_t c = mir_FromIterator_for_CircularBuffer_from_iter(it); if (UNWINDING) have_buf = 0; else b = c; }
+  else if (!strcmp(op, "swap")) mir_CircularBuffer_swap(&b, a, bb);
+  else if (!strcmp(op, "index")) (void)mir_Index_for_CircularBuffer_index(&b, a);
+  else if (!strcmp(op, "index_mut")) (void)mir_IndexMut_for_CircularBuffer_index_mut(&b, a);
+  else if (!strcmp(op, "range")) { user_R_t r; r.sdisc = 0; r.sval = a; r.edisc = 1; r.eval = bb; (void)mir_Iter_over_range(&b, r); }
+  else if (!strcmp(op, "range_mut")) { user_R_t r; r.sdisc = 0; r.sval = a; r.edisc = 1; r.eval = bb; (void)mir_IterMut_over_range(&b, r); }
+  else if (!strcmp(op, "drain_new")) { user_R_t r; r.sdisc = 0; r.sval = a; r.edisc = 1; r.eval = bb; (void)mir_Drain_over_range(&b, r); }
   else { printf("unknown op %s\n", op); exit(2); }
   int panicked = UNWINDING; UNWINDING = 0; FAULT_KIND = F_NONE;
   printf("%s N=%d M=0 start=%zu size=%zu a=%zu b=%zu start2=%zu size2=%zu fault=%u@%u -> panicked=%d", op, NN, start, size, a, bb, start2, size2, kind, at, panicked);
@@ -93,5 +101,16 @@ int main(void) {
   for (size_t start = 0; start < nstarts; start++) for (size_t size = 0; size <= NN; size++)
     for (size_t start2 = 0; start2 < nstarts; start2++) for (size_t size2 = 0; size2 <= NN; size2++)
       for (int x = 0; x < 6; x++) run("clone_from", start, size, 0, 0, start2, size2, cfaults[x][0], cfaults[x][1]);
+  static const unsigned clfaults[4][2] = { {0,0},{2,0},{2,1},{2,2} };
+  for (size_t start = 0; start < nstarts; start++) for (size_t size = 0; size <= NN; size++)
+    for (int x = 0; x < 4; x++) run("clone", start, size, 0, 0, 0, 0, clfaults[x][0], clfaults[x][1]);
+  static const unsigned fifaults[6][2] = { {0,0},{4,0},{4,1},{4,3},{1,0},{1,1} };
+  for (size_t a = 0; a <= 2 * NN + 1; a++) for (int x = 0; x < 6; x++) run("from_iter", 0, 0, a, 0, 0, 0, fifaults[x][0], fifaults[x][1]);
+  const char *pops[] = { "swap", "range", "range_mut", "drain_new" };
+  for (int o = 0; o < 4; o++) for (size_t start = 0; start < nstarts; start++) for (size_t size = 0; size <= NN; size++)
+    for (size_t a = 0; a <= NN + 1; a++) for (size_t b = 0; b <= NN + 1; b++) run(pops[o], start, size, a, b, 0, 0, 0, 0);
+  const char *iops[] = { "index", "index_mut" };
+  for (int o = 0; o < 2; o++) for (size_t start = 0; start < nstarts; start++) for (size_t size = 0; size <= NN; size++)
+    for (size_t a = 0; a <= NN + 1; a++) run(iops[o], start, size, a, 0, 0, 0, 0, 0);
   return 0;
 }
